@@ -521,6 +521,7 @@ def run(rep: Report, tier: str) -> None:
 	rule_member_refs_only(rep, idx)
 	rule_member_lookup_exact(rep, idx)
 	rule_str_cast_validates(rep, idx)
+	rule_evaluator_member_refs(rep, idx)
 
 
 def rule_literalise(rep: Report, idx: SourceIndex) -> None:
@@ -720,3 +721,38 @@ def rule_str_cast_validates(rep: Report, idx: SourceIndex) -> None:
 		env = {'str': True, 'allow': False}
 		reachable = all(val(c_, env) in (None, p_) for c_, p_ in conds)
 		r.check(not reachable, f'str-arm:{unparse(ret)[:40]}', (EVAL, ret.lineno), f'`{unparse(ret)[:70]}` hands a str argument back unchanged without knowing that it is a quoted literal: the handlers that ignore a node return an empty string, so `X = str(E.A)` (a member reference without .value) folds to an empty string — CPython evaluates "E.A"; conditions known here: {[(unparse(c_)[:50], p_) for c_, p_ in conds][:5]}', unparse(ret)[:100])
+
+
+def rule_evaluator_member_refs(rep: Report, idx: SourceIndex) -> None:
+	"""The evaluator folds `<expr>.value` by looking the last element of the receiver's spelling up among the members of the receiver's enum type. That
+	is the member's value only when <expr> IS a member reference (`E0.B`); for a variable of enum type (`A = E0.B` ... `X = A.value + 10`) it is the
+	value of whichever member is spelled like the variable (A = 1): 11 is folded where CPython evaluates 12. The look-up must be reached only under a
+	test that the receiver is reached through the class object (the same condition as Py2Cpp.is_enum_member_ref), everything else refused."""
+	from vlib.match import path_conditions
+	from vlib.norm import helper_closure
+	r = rep.rule('C17/evaluator-folds-member-references-only', 'LiteralEvaluator.on_relay reaches Enum.var_value only under a test that the receiver is `<class object>.<member>` (type_is(type) on the receiver\'s receiver, or a helper that tests it)', floor=1)
+	f = idx.mod(EVAL).func('LiteralEvaluator.on_relay')
+	if f is None:
+		r.skip('on_relay', (EVAL, 1), 'LiteralEvaluator.on_relay vanished')
+		return
+	sites = [c_ for c_ in ast.walk(f.node) if isinstance(c_, ast.Call) and isinstance(c_.func, ast.Attribute) and c_.func.attr == 'var_value']
+	if not sites:
+		r.skip('on_relay', f.where, 'on_relay no longer calls Enum.var_value')
+	members = helper_closure(f, 2)
+
+	def tests_member(e: ast.AST, depth: int = 0) -> bool:
+		src = unparse(e).replace(' ', '')
+		if 'type_is(type)' in src and 'receiver.receiver' in src:
+			return True
+		if depth < 2:
+			for c_ in ast.walk(e):
+				if isinstance(c_, ast.Call) and isinstance(c_.func, ast.Attribute) and isinstance(c_.func.value, ast.Name) and c_.func.value.id == 'self':
+					g = next((m_ for m_ in members if m_.name == c_.func.attr and m_ is not f), None)
+					if g is not None and any(tests_member(x.value, depth + 1) for x in ast.walk(g.node) if isinstance(x, ast.Return) and x.value is not None):
+						return True
+		return False
+
+	for c_ in sites:
+		conds = list(path_conditions(f.node, c_))
+		ok = any(tests_member(t) for t, _p in conds)
+		r.check(ok, f'on_relay:{unparse(c_)[:40]}', (EVAL, c_.lineno), f'`{unparse(c_)[:60]}` is reached for EVERY receiver of enum type (conditions: {[(unparse(t)[:60], p_) for t, p_ in conds][:3]}): for a variable `A = E0.B` the member spelled `A` is looked up, so `X = A.value + 10` folds to 11 where CPython evaluates 12 — a different value, not a refusal', unparse(c_)[:100])
